@@ -10,6 +10,8 @@
 //! [`Write`]: https://doc.rust-lang.org/std/io/trait.Write.html
 //! [`BufWriter`]: https://doc.rust-lang.org/std/io/struct.BufWriter.html
 
+use rio_api::formatter::TriplesFormatter;
+use rio_api::model::{BlankNode, Literal, Subject, Term as RioTerm, Triple as RioTriple};
 use rio_xml::RdfXmlFormatter;
 use sophia_api::serializer::{Stringifier, TripleSerializer};
 use sophia_api::source::{SinkError, StreamResult, TripleSource};
@@ -90,11 +92,119 @@ where
         } else {
             RdfXmlFormatter::new(&mut self.write)
         };
-        let mut tf = res.map_err(SinkError)?;
+        let mut tf = Checked(res.map_err(SinkError)?);
         rio_format_triples(&mut tf, source)?;
-        tf.finish().map_err(SinkError)?;
+        tf.0.finish().map_err(SinkError)?;
         Ok(self)
     }
+}
+
+/// Rio's formatter writes whatever it is given.
+/// This wrapper makes sure that what is written is an RDF/XML document:
+/// * `rdf:nodeID` must be an XML name, which a blank node label starting with a digit is not:
+///   labels starting with a digit or `_` get an additional leading `_` (this keeps distinct labels distinct);
+/// * triples that RDF/XML can not express are errors, namely those
+///   whose predicate does not end with an XML local name,
+///   whose predicate is a reserved RDF name (`rdf:li` would be read back as `rdf:_1`),
+///   or whose literal contains characters that XML does not allow.
+struct Checked<W: io::Write>(RdfXmlFormatter<W>);
+
+impl<W: io::Write> TriplesFormatter for Checked<W> {
+    type Error = io::Error;
+
+    fn format(&mut self, triple: &RioTriple<'_>) -> io::Result<()> {
+        let (s_id, o_id);
+        let mut triple = *triple;
+        check_predicate(triple.predicate.iri)?;
+        if let Subject::BlankNode(b) = triple.subject {
+            if let Some(id) = node_id(b.id) {
+                s_id = id;
+                triple.subject = BlankNode { id: &s_id }.into();
+            }
+        }
+        match triple.object {
+            RioTerm::BlankNode(b) => {
+                if let Some(id) = node_id(b.id) {
+                    o_id = id;
+                    triple.object = BlankNode { id: &o_id }.into();
+                }
+            }
+            RioTerm::Literal(
+                Literal::Simple { value }
+                | Literal::LanguageTaggedString { value, .. }
+                | Literal::Typed { value, .. },
+            ) => {
+                if !value.chars().all(is_xml_char) {
+                    return Err(invalid(format!(
+                        "RDF/XML can not express the literal {value:?} (character not allowed in XML)"
+                    )));
+                }
+            }
+            _ => {}
+        }
+        self.0.format(&triple)
+    }
+}
+
+fn invalid(msg: String) -> io::Error {
+    io::Error::new(io::ErrorKind::InvalidInput, msg)
+}
+
+/// The `rdf:nodeID` for blank node label `id`, if it differs from `id`.
+fn node_id(id: &str) -> Option<String> {
+    id.starts_with(|c: char| c.is_ascii_digit() || c == '_')
+        .then(|| format!("_{id}"))
+}
+
+const RDF_NS: &str = "http://www.w3.org/1999/02/22-rdf-syntax-ns#";
+/// Names of the RDF namespace that are not allowed as property element
+const RDF_RESERVED: [&str; 12] = [
+    "about",
+    "aboutEach",
+    "aboutEachPrefix",
+    "bagID",
+    "datatype",
+    "ID",
+    "li",
+    "nodeID",
+    "parseType",
+    "RDF",
+    "resource",
+    "Description",
+];
+
+fn check_predicate(iri: &str) -> io::Result<()> {
+    // Rio splits after the last character that can not be part of a local name,
+    // and starts the local name at the first character that can start one
+    let has_local_name = iri
+        .rfind(|c| !is_name_char(c) || c == ':')
+        .is_some_and(|i| iri[i..].contains(|c| is_name_start_char(c) && c != ':'));
+    let reserved = iri
+        .strip_prefix(RDF_NS)
+        .is_some_and(|local| RDF_RESERVED.contains(&local));
+    if has_local_name && !reserved {
+        Ok(())
+    } else {
+        Err(invalid(format!(
+            "RDF/XML can not express the predicate <{iri}> (no XML local name, or reserved RDF name)"
+        )))
+    }
+}
+
+fn is_xml_char(c: char) -> bool {
+    matches!(c, '\t' | '\n' | '\r' | ' '..='\u{D7FF}' | '\u{E000}'..='\u{FFFD}' | '\u{10000}'..)
+}
+
+fn is_name_start_char(c: char) -> bool {
+    matches!(c, ':' | 'A'..='Z' | '_' | 'a'..='z' | '\u{C0}'..='\u{D6}' | '\u{D8}'..='\u{F6}'
+        | '\u{F8}'..='\u{2FF}' | '\u{370}'..='\u{37D}' | '\u{37F}'..='\u{1FFF}' | '\u{200C}'..='\u{200D}'
+        | '\u{2070}'..='\u{218F}' | '\u{2C00}'..='\u{2FEF}' | '\u{3001}'..='\u{D7FF}'
+        | '\u{F900}'..='\u{FDCF}' | '\u{FDF0}'..='\u{FFFD}' | '\u{10000}'..='\u{EFFFF}')
+}
+
+fn is_name_char(c: char) -> bool {
+    is_name_start_char(c)
+        || matches!(c, '-' | '.' | '0'..='9' | '\u{B7}' | '\u{300}'..='\u{36F}' | '\u{203F}'..='\u{2040}')
 }
 
 impl RdfXmlSerializer<Vec<u8>> {
